@@ -98,7 +98,7 @@ def evaluate_any(spec):
     sig, detail = validity(o)
     kinds = sorted({c["kind"] + (":" + c.get("what", "") if c["kind"] == "noise" else "") for c in spec["conns"]})
     opts = spec.get("opts") or {}
-    labels = ["any", "opts:" + "".join(k for k in ("a", "c") if opts.get(k)) + ("m" if opts.get("m") is not None else "") + ("p" if opts.get("p") else "")]
+    labels = ["any", "opts:" + "".join(k for k in ("a", "c", "g", "d", "f") if opts.get(k)) + ("m" if opts.get("m") is not None else "") + ("p" if opts.get("p") else "")]
     labels += ["has:" + k for k in kinds]
     if spec.get("drop_keys"):
         labels.append("keys-missing")
@@ -128,6 +128,11 @@ def any_spec(draw):
         opts["p"] = draw(st.lists(st.sampled_from([8443, 4433, 80]), min_size=1, max_size=2))
     mk = draw(st.sampled_from([None, None, [], ["443:8081"], ["443:8081,", "8443:8088"]]))
     opts["m"] = mk
+    # the remaining switches: RFC 9287 greased fixed bit, log level, log filter
+    opts["g"] = draw(st.sampled_from([False, False, True]))
+    opts["d"] = draw(st.sampled_from([None, None, "DEBUG", "INFO", "WARNING", "bare", "nonsense"]))
+    if draw(st.integers(0, 4)) == 0:
+        opts["f"] = draw(st.lists(st.sampled_from(["session.py", "main.py", "quic_session.py", "x"]), min_size=1, max_size=2))
     sc = {"conns": conns, "order": draw(st.lists(st.integers(0, 5), min_size=1, max_size=8)), "tseed": draw(st.integers(1, 500)), "opts": opts}
     if draw(st.integers(0, 3)) == 0:
         sc["drop_keys"] = draw(st.lists(st.integers(0, 12), min_size=1, max_size=6))
@@ -245,7 +250,7 @@ RULE = ("validity predicate only (no expected bytes); stage long-flow feeds the 
         "verification, strict TCP reassembler (SYN, SYN/ACK, ACK, then gap-free non-overlapping sequence space with consistent ACKs); stage "
         "split-grid enumerates (record length n = 0..40, 255, 256, 1400, 16384) x (number k = 1..min(n+5,12) of input segments carrying the record) "
         "and additionally demands <= k segments whose concatenation is the record; stage any-capture draws captures of 0-4 flows (TLS, QUIC, plain "
-        "HTTP / other TCP on watched ports, DNS / random / QUIC-shaped UDP, ARP; keys missing for some) x options (-a, -c, -p, -m forms).  "
+        "HTTP / other TCP on watched ports, DNS / random / QUIC-shaped UDP, ARP; keys missing for some) x options (-a, -c, -p, -m forms, -g, -d levels, -f).  "
         "Non-trivial: k >= 2 (grid); non-empty output and a foreign or undecryptable flow present (any-capture)")
 ASSUMPTIONS = ["the validity predicate itself (lib/netio.py strict reader/parser, lib/oracle.tcp_streams) is the trusted base",
                "zero-length data segments are accepted as segments"]
